@@ -80,7 +80,7 @@ class Report:
         os.makedirs(env.EVIDENCE, exist_ok=True)
         replay_dir = os.path.join(env.VERIF, 'replays')
         lines = []
-        for i, (key, what, replay) in enumerate(self.viol):
+        for i, (key, what, replay) in enumerate(self.viol[:25]):
             os.makedirs(replay_dir, exist_ok=True)
             path = os.path.join(replay_dir, f"{self.pid}_{env.canon_hash([key, what])}.json")
             with open(path, 'w') as f:
@@ -88,6 +88,8 @@ class Report:
                           default=str)
             lines.append(f"VIOLATION property={self.pid} replay={path}")
             print(f"  what: {what}"[:600])
+        if len(self.viol) > 25:
+            print(f"  ... and {len(self.viol) - 25} more violations (not written as replay files)")
         for key, what in self.known_hits:
             print(f"KNOWN-FINDING: property={self.pid} {what} [{key}]")
         ev = dict(property_id=self.pid, tier=self.tier, seed=env.seed(), level=self.level,
